@@ -555,3 +555,23 @@ def replay(v):
     mine = [d for c, d in fails if c == check]
     return {'case': case, 'check': check, 'violates': bool(mine), 'failures': mine[:1],
             'other_failing_checks': sorted({c for c, _ in fails if c != check})}
+
+
+def finish(cov, results, tier):
+    """Evidence samples: one per section; per-section evaluation counts and which sections were fully enumerated."""
+    per, samp = {}, {}
+    for r in results:
+        sec = r['shard']['section']
+        p = per.setdefault(sec, {'evaluations': 0, 'shards': 0})
+        p['evaluations'] += r.get('evaluations', 0)
+        p['shards'] += 1
+        for s in r.get('samples', []):
+            if 'rejected' not in s:
+                samp.setdefault(sec, s)
+    for sec, p in per.items():
+        p['exhaustive'] = sec in ('hp', 'c2', 'fixed')
+    cov['sections'] = per
+    cov['samples'] = [samp[k] for k in sorted(samp)]
+    cov['exhaustive_note'] = ('hp (all 2^16 patterns), two\'s complement and FixedPoint are fully enumerated at the stated '
+                              'bound; sp, dp and FPNum arithmetic are exhaustive over the stated alphabets only')
+    cov['fixedpoint_mult_readings'] = sorted({r['mult_reading'] for r in results if r.get('mult_reading')})
